@@ -352,6 +352,86 @@ func crashfuzzCmd(args []string) int {
 			ncase++
 		}
 	}
+	// phase 4: hostile input from users (not clients) on the public ports of registered proxies
+	{
+		p, _, _ := peer.Login(srv.Addr, peer.LoginOpts{Token: env.Token})
+		if p != nil {
+			ap := newAutoPeer(p, "pub", nil)
+			_, _ = ap.NewProxy(&msg.NewProxy{ProxyName: "pub-http", ProxyType: "http", CustomDomains: []string{"pub.test"}, HTTPUser: "u", HTTPPwd: "p"}, 3*time.Second)
+			_, _ = ap.NewProxy(&msg.NewProxy{ProxyName: "pub-https", ProxyType: "https", CustomDomains: []string{"pubs.test"}}, 3*time.Second)
+			_, _ = ap.NewProxy(&msg.NewProxy{ProxyName: "pub-mux", ProxyType: "tcpmux", Multiplexer: "httpconnect", CustomDomains: []string{"pubm.test"}, HTTPUser: "u", HTTPPwd: "p"}, 3*time.Second)
+			long := strings.Repeat("A", 9000)
+			type ui struct {
+				kind, class string
+				port        int
+				data        string
+			}
+			hp, sp, mp := srv.Cfg.VhostHTTPPort, srv.Cfg.VhostHTTPSPort, srv.Cfg.TCPMuxHTTPConnectPort
+			inputs := []ui{
+				{"UserHTTP", "baseline", hp, "GET / HTTP/1.1\r\nHost: pub.test\r\nAuthorization: Basic dTpw\r\n\r\n"},
+				{"UserHTTP", "emptyelem", hp, "GET / HTTP/1.1\r\nHost: pub.test\r\nAuthorization: Basic\r\n\r\n"},
+				{"UserHTTP", "emptyelem", hp, "GET / HTTP/1.1\r\nHost: pub.test\r\nAuthorization: Basic    \r\nProxy-Authorization: Basic\r\n\r\n"},
+				{"UserHTTP", "garbage", hp, "GET / HTTP/1.1\r\nHost: pub.test\r\nAuthorization: Basic !!!\r\nProxy-Authorization: Basic ====\r\n\r\n"},
+				{"UserHTTP", "garbage", hp, "\x00\x01\x02\xff\xfe garbage\r\n\r\n"},
+				{"UserHTTP", "empty", hp, "\r\n\r\n"},
+				{"UserHTTP", "empty", hp, "GET / HTTP/1.1\r\nHost:\r\n\r\n"},
+				{"UserHTTP", "long", hp, "GET /" + long + " HTTP/1.1\r\nHost: pub.test\r\nX-Long: " + long + "\r\n\r\n"},
+				{"UserHTTP", "nonutf8", hp, "GET /\xff\xfe HTTP/1.1\r\nHost: pub\xff.test\r\n\r\n"},
+				{"UserHTTP", "unknown", hp, "GET / HTTP/1.1\r\nHost: nobody.test\r\n\r\n"},
+				{"UserHTTP", "negative", hp, "POST / HTTP/1.1\r\nHost: pub.test\r\nContent-Length: -1\r\n\r\n"},
+				{"UserHTTP", "huge", hp, "POST / HTTP/1.1\r\nHost: pub.test\r\nAuthorization: Basic dTpw\r\nContent-Length: 99999999999\r\n\r\nshort"},
+				{"UserHTTP", "nil", hp, "GET /\r\n"},
+				{"UserHTTP", "unknown", hp, "PRI * HTTP/2.0\r\n\r\nSM\r\n\r\n\x00\x00\x00\x04\x00\x00\x00\x00\x00"},
+				{"UserHTTP", "unknown", hp, "CONNECT pub.test:80 HTTP/1.1\r\nHost: pub.test:80\r\n\r\n"},
+				{"UserCONNECT", "baseline", mp, "CONNECT pubm.test:80 HTTP/1.1\r\nHost: pubm.test:80\r\nProxy-Authorization: Basic dTpw\r\n\r\n"},
+				{"UserCONNECT", "emptyelem", mp, "CONNECT pubm.test:80 HTTP/1.1\r\nHost: pubm.test:80\r\nProxy-Authorization: Basic\r\n\r\n"},
+				{"UserCONNECT", "emptyelem", mp, "CONNECT pubm.test:80 HTTP/1.1\r\nHost: pubm.test:80\r\nProxy-Authorization: basic   \r\n\r\n"},
+				{"UserCONNECT", "emptyelem", mp, "CONNECT pubm.test:80 HTTP/1.1\r\nHost: pubm.test:80\r\nProxy-Authorization:\r\n\r\n"},
+				{"UserCONNECT", "garbage", mp, "CONNECT pubm.test:80 HTTP/1.1\r\nHost: pubm.test:80\r\nProxy-Authorization: Basic !!!!\r\n\r\n"},
+				{"UserCONNECT", "garbage", mp, "CONNECT pubm.test:80 HTTP/1.1\r\nHost: pubm.test:80\r\nProxy-Authorization: Basic Og==\r\n\r\n"},
+				{"UserCONNECT", "empty", mp, "CONNECT  HTTP/1.1\r\n\r\n"},
+				{"UserCONNECT", "empty", mp, "CONNECT : HTTP/1.1\r\nHost:\r\n\r\n"},
+				{"UserCONNECT", "unknown", mp, "CONNECT nobody.test:80 HTTP/1.1\r\nHost: nobody.test:80\r\n\r\n"},
+				{"UserCONNECT", "unknown", mp, "GET / HTTP/1.1\r\nHost: pubm.test\r\n\r\n"},
+				{"UserCONNECT", "long", mp, "CONNECT " + long + ":80 HTTP/1.1\r\nHost: x\r\nProxy-Authorization: Basic " + long + "\r\n\r\n"},
+				{"UserCONNECT", "nonutf8", mp, "CONNECT pubm\xff.test:80 HTTP/1.1\r\nHost: \xff\r\n\r\n"},
+				{"UserCONNECT", "over16", mp, "CONNECT pubm.test:99999 HTTP/1.1\r\nHost: pubm.test:99999\r\nProxy-Authorization: Basic dTpw\r\n\r\n"},
+				{"UserCONNECT", "negative", mp, "CONNECT pubm.test:-1 HTTP/1.1\r\nHost: pubm.test:-1\r\n\r\n"},
+				{"UserTLS", "garbage", sp, "\x16\x03\x01\x00\x05garba"},
+				{"UserTLS", "garbage", sp, "\x16\x03\x01\x00\x2e\x01\x00\x00\x2a\x03\x03" + strings.Repeat("\x00", 32) + "\x00\x00\x02\x00\x2f\x01\x00\xff\xff"},
+				{"UserTLS", "empty", sp, "\x16\x03\x01\x00\x00"},
+				{"UserTLS", "zero", sp, "\x16\x03\x01\x00\x04\x01\x00\x00\x00"},
+				{"UserTLS", "maxint", sp, "\x16\x03\x01\xff\xff\x01\xff\xff\xff" + strings.Repeat("\x41", 200)},
+				{"UserTLS", "huge", sp, "\x16\x03\x01\x40\x00\x01\x00\x3f\xfc" + strings.Repeat("\x00", 9000)},
+				{"UserTLS", "unknown", sp, "GET / HTTP/1.1\r\nHost: pubs.test\r\n\r\n"},
+				{"UserTLS", "nonutf8", sp, "\x16\x03\x01\x00\x40\x01\x00\x00\x3c\x03\x03" + strings.Repeat("\x11", 32) + "\x00\x00\x02\x00\x2f\x01\x00\x00\x11\x00\x00\x00\x0d\x00\x0b\x00\x00\x08\xff\xfe\x00.test"},
+			}
+			for i := 0; i < len(inputs); i += 4 {
+				var wg sync.WaitGroup
+				for j := i; j < i+4 && j < len(inputs); j++ {
+					wg.Add(1)
+					go func(in ui) {
+						defer wg.Done()
+						c, err := net.DialTimeout("tcp", fmt.Sprintf("127.0.0.1:%d", in.port), time.Second)
+						if err != nil {
+							return
+						}
+						_, _ = c.Write([]byte(in.data))
+						_ = c.SetReadDeadline(time.Now().Add(300 * time.Millisecond))
+						_, _ = c.Read(make([]byte, 512))
+						c.Close()
+					}(inputs[j])
+				}
+				wg.Wait()
+				ok := alive()
+				for j := i; j < i+4 && j < len(inputs); j++ {
+					sink.Emit("drv", "crash.case", "msg", inputs[j].kind, "class", inputs[j].class, "phase", "user-port", "alive", ok)
+					ncase++
+				}
+			}
+			ap.shutdown()
+		}
+	}
 	sink.Emit("drv", "crash.coverage", "cases", ncase)
 	srv.Stop()
 	sink.Close()
